@@ -18,6 +18,7 @@ import json
 
 import harness
 import progs
+import qtmock
 import refeval as rv
 import uiread
 import vcommon as vc
@@ -245,6 +246,16 @@ def h3_cases():
            [("chain3", "t->chain3(8, QString(u\"z\"));")])
     yield (101, "onOChanged", HEAD + "    VObj {\n        id: t\n        onOChanged: function(x: int) { a.done(x) }\n    }\n    VObj { id: t2 }\n}\n",
            [("e9", "t->setO(4);")])
+    # two objects whose <Object><Signal> names coincide: each handler still runs for its own signal only
+    yield (104, "onEditTextChanged", "import qmluic.QtWidgets\nQWidget {\n    id: root\n    VObj { id: a }\n    VObj { id: b0 }\n    VObj { id: c0 }\n"
+           "    QComboBox { id: t; onEditTextChanged: a.done(1) }\n    QLineEdit { id: tEdit; onTextChanged: a.done(2) }\n}\n",
+           [("combo", "t->editTextChanged(QString());"), ("edit", "tEdit->textChanged(QString());")])
+    yield (105, "onValueChanged", "import qmluic.QtWidgets\nQWidget {\n    id: root\n    VObj { id: a }\n    VObj { id: b0 }\n    VObj { id: c0 }\n"
+           "    QSlider { id: t; onValueChanged: a.done(1) }\n    QAction { id: tValue; onChanged: a.done(2) }\n}\n",
+           [("spin", "t->valueChanged(1);"), ("action", "tValue->changed();")])
+    yield (106, "onFiredWith", HEAD + "    VObj { id: t; onFiredWith: a.done(1) }\n    VObj { id: tFired; onIChanged: a.done(2) }\n"
+           "    VObj { id: tFiredWith; onFired: a.done(3) }\n}\n",
+           [("t", "t->firedWith(1, QString());"), ("tFired", "tFired->setI(tFired->i() + 1);"), ("tFiredWith", "tFiredWith->fired();")])
     # real Qt classes: inherited signal with default argument, notify signal
     yield (102, "onClicked", "import qmluic.QtWidgets\nQWidget {\n    id: root\n    VObj { id: a }\n    VObj { id: b0 }\n    VObj { id: c0 }\n"
            "    QPushButton {\n        id: t\n        onClicked: function(on: bool) { a.sayBool(on) }\n        onToggled: a.done(7)\n    }\n}\n",
@@ -295,7 +306,9 @@ def judge_h3(t, p, res):
                 t.violation(f"wiring:{what}", {"source": m["source"], "emitted": code, "expected": want_effects, "observed": have})
         else:
             want = {"e2": "1#a.done(5);", "e2b": "1#a.done(6);", "e9": "1#t.setO(4);a.done(4);",
-                    "chain3": "1#a.done(8);a.say(s:007a);", "clicked": "2#a.sayBool(true);", "toggled": "2#a.done(7);", "pressed": "2#"}[label]
+                    "chain3": "1#a.done(8);a.say(s:007a);", "clicked": "2#a.sayBool(true);", "toggled": "2#a.done(7);", "pressed": "2#",
+                    "combo": "1#a.done(1);", "edit": "1#a.done(2);", "spin": "1#a.done(1);", "action": "1#a.done(2);",
+                    "t": "1#a.done(1);", "tFired": "1#tFired.setI(1);a.done(2);", "tFiredWith": "1#a.done(3);"}[label]
             if have != want:
                 t.violation(f"wiring:argument-or-overload:{m['handler']}", {"source": m["source"], "emitted": code,
                                                                           "expected": want, "observed": have})
@@ -328,6 +341,11 @@ REAL_NON_SIGNALS = [
     ("QWidget", "onSetFocus: a.act()"), ("QLabel", "onSetNum: a.act()"), ("QWidget", "onRepaint: a.act()"),
     ("QWidget", "onUpdate: a.act()"), ("QLineEdit", "onSetText: a.act()"), ("QComboBox", "onSetCurrentIndex: a.act()"),
 ]
+# signals of real Qt classes that have several real overloads (some with argument types qmluic does not know):
+# a handler without parameters cannot pick one
+REAL_AMBIGUOUS = [("QTextBrowser", "onHighlighted: a.act()"), ("QComboBox", "onActivated: a.act()"), ("QComboBox", "onCurrentIndexChanged: a.act()"),
+                  ("QSpinBox", "onValueChanged: function(x: QString) {}"), ("QButtonGroup", "onButtonClicked: a.act()"),
+                  ("QTabWidget", "onNoSuch: a.act()")]
 GROUP_HANDLERS = [
     ("table-header-dotted", "QTableView", "horizontalHeader.onSectionClicked: a.act()", "sectionClicked"),
     ("table-header-braces", "QTableView", "verticalHeader { onSectionClicked: a.act() }", "sectionClicked"),
@@ -454,6 +472,21 @@ def shard_work(shard, nshards, payload):
                 continue
             if vc.accepted(g) or not any(d["kind"] == "error" for d in g["diagnostics"]):
                 t.violation("accepted-a-handler-that-must-be-rejected:" + label, {"source": src})
+        for cls, text in REAL_AMBIGUOUS:
+            src = HEAD + f"    {cls} {{\n        id: t\n        {text}\n    }}\n}}\n"
+            r = vd.job({"id": text, "source": src, "modes": ["generate"]})
+            t.inc("reject_cases")
+            g = r["modes"]["generate"]
+            if r.get("has_syntax_error"):
+                raise vc.MachineryError("document does not parse:\n" + src)
+            if vc.accepted(g):
+                # accepted: then it must be because the metatypes list one C++ function only; otherwise a violation
+                sigs = [x for x in qtmock.load_types().get(cls, {}).get("signals", []) if x["name"] == text.split(":")[0][2].lower() + text.split(":")[0][3:]]
+                arities = sorted(len(x.get("arguments", [])) for x in sigs)
+                chain = all(a.get("arguments", [])[:len(b.get("arguments", []))] == b.get("arguments", []) or
+                            b.get("arguments", [])[:len(a.get("arguments", []))] == a.get("arguments", []) for a in sigs for b in sigs)
+                if not chain:
+                    t.violation("accepted-a-handler-that-must-be-rejected:real-overloads:" + cls + "." + text.split(":")[0], {"source": src, "arities": arities})
         for cls, text in REAL_NON_SIGNALS:
             src = HEAD + f"    {cls} {{\n        id: t\n        {text}\n    }}\n}}\n"
             r = vd.job({"id": text, "source": src, "modes": ["generate"]})
